@@ -360,6 +360,18 @@ def unit_drop_helper(depth):
     return sp
 
 
+def unit_conditional_keep():
+    """a keep written under 'if FLAG:' in the evaluated function: when FLAG is off the keep is analysed but not reached - its
+    path must go on serving what it served"""
+    funcs = [{"name": "G", "module": "main", "params": [], "body": []},
+             {"name": "S", "module": "main", "params": [], "datafn": "/u/s", "body": []},
+             {"name": "root", "module": "main", "params": [], "body": [{"k": "keep", "path": "/u/c", "fn": "G", "args": [], "ctx": "if_flag"}, {"k": "call", "fn": "S"}]},
+             {"name": "root2", "module": "main", "params": [], "body": [{"k": "call", "fn": "S"}]}]
+    return {"id": "U/conditional_keep", "key": "conditional_keep", "modules": ["main"], "vars": [{"name": "FLAG", "module": "main", "values": ["True", "False"]}],
+            "funcs": funcs, "entries": {"eval_root": {"kind": "eval", "fn": "root"}, "eval_sub": {"kind": "eval", "fn": "root2"}},
+            "eps": [{"id": "FLAG", "kind": "var_value", "n": 2}, {"id": "tag:G", "kind": "body_tag", "n": 2}]}
+
+
 def unit_class_attr():
     """a class-level attribute initialised from a tracked module variable, read through self in a method"""
     var = {"name": "V0", "module": "main", "values": ["1", "2"]}
@@ -567,7 +579,7 @@ PATHSETS = [["/a", "/a2/b", "/c/d/e"], ["/c/d/e", "/c/d/f/g", "/cd/e"], ["/a/b/c
 
 def c04_programs():
     """three kept nodes under paths of 1-4 segments with shared directories; two roots keeping different subsets"""
-    out = []
+    out = [unit_conditional_keep()]
     for pi, paths in enumerate(PATHSETS):
         for styles in (["datafn", "keep0", "keep0"], ["keep0", "datafn", "keeplit"]):
             for shape in ("fan", "chain"):
